@@ -558,6 +558,24 @@ impl<'a, T: Elem + SatisfyTraits<Tr>, M: MemCaps, Tr: ?Sized + TrCaps> Cx<'a, T,
             let h = tmp.remove(0);
             src.push(h);
         }
+        // lazy clones across backends (the documented intermediate-storage idiom)
+        let mut lazies = 0;
+        for i in 0..n {
+            if !Tr::lazy_put(&mut tmp, None, if i % 2 == 0 { LazySrc::Ref } else { LazySrc::Mut }, src, i, 1 + (i % 3) as u8) {
+                break;
+            }
+            lazies += 1;
+        }
+        if lazies > 0 {
+            match tmp.downcast_ref::<T>() {
+                Some(tv) => {
+                    for e in tv.as_slice() {
+                        self.val(probe_val(e));
+                    }
+                }
+                None => self.note("clone_empty_in: downcast_ref::<T>() of the result is None".into()),
+            }
+        }
         drop(tmp);
     }
 
